@@ -17,6 +17,9 @@ import (
 )
 
 const (
+	// class prefix of failures that a known defect of pkg/trie/inmemory explains
+	knownZeroNibble = "zero-low-nibble-prefix"
+
 	prop          = "C08"
 	childRootPfx  = ":child_storage:default:"
 	childNsPfx    = ":child_storage:"
@@ -64,23 +67,26 @@ var kidNamePool = []string{"a", "c1", "ab", "\x10"}
 var kidKeyPool = []string{"a", "ab", "abc", "b", "", "\x10", "\x10\x01", "\x1f", "\x11", childRootPfx + "a"}
 var valLens = []int{1, 0, 31, 32, 33, 64, 2, 32, 33}
 
-type line struct{ tag, key, val string }
+type line struct{ tag, key, val, pfx string }
 
 func (l line) String() string { return l.tag + "|" + l.key + " = " + l.val }
 
 // sut is one real TrieState under test together with its backend. The same
 // calls are issued to every live sut in lockstep.
-//   - primary: TrieState over the reference backend (mapTrie). Its failures are
-//     failures of TrieState/storageDiff = violations of C08.
-//   - secondary: TrieState over the real pkg/trie/inmemory trie. A failure seen
-//     ONLY there (the primary agreed with the model on the same calls) is a
-//     defect of the in-memory trie; it is recorded as a C02 observation
-//     (evidence: other_property_oracles_fired), the secondary is dropped for the
-//     rest of the run and the run continues on the primary.
+//   - primary (verdict): TrieState over the real pkg/trie/inmemory trie.
+//   - secondary (canary): TrieState over the reference backend (mapTrie). It is
+//     driven first. Its iterator turns a non-terminating TrieState loop into a
+//     reportable violation before the real backend is touched, and its verdict
+//     tells where a failure of the primary lives: if the canary agrees with
+//     the model on the same calls the defect is below TrieState (class prefix
+//     "inmemory-only: "). A failure seen only on the canary is recorded as an
+//     observation for property "C08-REF" and the canary is dropped.
 type sut struct {
 	name    string
 	primary bool
+	real    bool // backend is pkg/trie/inmemory
 	ts      *storage.TrieState
+	ref     *mapTrie
 	alive   bool
 	snaps   []string
 }
@@ -88,12 +94,15 @@ type sut struct {
 type sutDead struct{}
 
 // continueSafe lists the oracles after whose failure model and system still
-// agree on the state (only a returned flag/number was wrong).
+// agree on the state (only a returned flag/number was wrong): a known finding
+// marked "continue" lets the run go on only for these.
 var continueSafe = map[string]bool{"clear-result-all": true, "clear-result-count": true}
 
 type env struct {
 	k        *kernel.K
-	suts     []*sut
+	suts     []*sut // canary first, primary second
+	prim     *sut
+	sec      *sut
 	m        *model
 	ver      trie.TrieLayout
 	mainKeys []string // writable main alphabet
@@ -104,23 +113,41 @@ type env struct {
 	kidPfx   []string
 	lastOp   string
 	valCtr   int
+	// ctx names a KNOWN defect of pkg/trie/inmemory that the current call can run into
+	// (only set in runs whose knob allows generating it); it prefixes the class.
+	ctx        string
+	zeroNibble bool // knob: prefixes whose last byte has a zero low nibble
 }
 
-// fail reports an oracle failure observed on s.
+// fail reports an oracle failure observed on s by a check that every live
+// instance goes through (the canary first).
 func (e *env) fail(s *sut, oracle, class, f string, a ...any) {
+	e.failX(s, true, oracle, class, f, a...)
+}
+
+// failX: attribute says whether the canary went through the same check before.
+func (e *env) failX(s *sut, attribute bool, oracle, class, f string, a ...any) {
 	if s.primary {
+		switch {
+		case e.ctx != "":
+			class = e.ctx + ": " + class
+		case attribute && e.sec.alive:
+			// the canary has just passed the same check
+			class = "inmemory-only: " + class
+			f = "[the same TrieState calls over the reference backend agree with the model: defect of pkg/trie/inmemory] " + f
+		}
 		if e.k.Violate(prop, oracle, class, f, a...) {
 			// a known finding marked "continue": sound only for the oracles about a returned
 			// flag/number (state and model still agree); for every other oracle the run ends here
-			if continueSafe[oracle] {
+			if continueSafe[oracle] && e.ctx == "" {
 				return
 			}
 			e.k.Stop()
 		}
 	}
-	e.k.Violate("C02", "txn-over-inmemory:"+oracle, class,
-		"[only over the real pkg/trie/inmemory backend; the same TrieState calls over the reference backend agree with the model] "+f, a...)
-	e.k.Probe("secondary(inmemory-backend)-diverged")
+	e.k.Violate("C08-REF", "reference-backend:"+oracle, class,
+		"[only over the reference backend; not a verdict] "+f, a...)
+	e.k.Probe("canary(reference-backend)-diverged")
 	s.alive = false
 	panic(sutDead{})
 }
@@ -145,7 +172,8 @@ func panicSite(stack string) string {
 }
 
 // guard runs f for s. A panic while driving the primary propagates to the
-// kernel (gossamer frame => violation "panic", harness frame => trouble).
+// kernel (gossamer frame => violation "panic", harness frame => trouble); a
+// panic of gossamer code while driving the canary drops the canary.
 func (e *env) guard(s *sut, f func()) {
 	defer func() {
 		r := recover()
@@ -162,9 +190,9 @@ func (e *env) guard(s *sut, f func()) {
 		if site == "?" {
 			panic(r) // not in gossamer code: a harness bug must not be masked
 		}
-		e.k.Violate("C02", "txn-over-inmemory:panic", "panic@"+site,
-			"[only over the real pkg/trie/inmemory backend] panic %v at %s after %s", r, site, e.lastOp)
-		e.k.Probe("secondary(inmemory-backend)-diverged")
+		e.k.Violate("C08-REF", "reference-backend:panic", "panic@"+site,
+			"[only over the reference backend; not a verdict] panic %v at %s after %s", r, site, e.lastOp)
+		e.k.Probe("canary(reference-backend)-diverged")
 		s.alive = false
 	}()
 	f()
@@ -191,12 +219,23 @@ func (e *env) class(what string) string {
 	return fmt.Sprintf("%s after %s [%s]", what, e.lastOp, e.mode())
 }
 
-func (e *env) value() []byte {
+// value draws a value that no other write of the run produces (except the
+// empty value). Child tries only get empty values in runs with at most one
+// child trie: two child tries with identical contents collide in the in-memory
+// trie's childTries map (known finding of C04, generated by the store world).
+func (e *env) value(child bool) []byte {
 	e.valCtr++
 	n := valLens[e.k.Choose(len(valLens), "vallen")]
+	if n == 0 && child && len(e.kids) > 1 {
+		n = 1
+	}
 	v := make([]byte, n)
 	for i := range v {
-		v[i] = byte(e.valCtr)
+		if i%2 == 0 {
+			v[i] = byte(e.valCtr)
+		} else {
+			v[i] = byte(e.valCtr >> 8)
+		}
 	}
 	return v
 }
@@ -277,26 +316,26 @@ func (e *env) observe(s *sut, raw bool) []line {
 	var out []line
 	for _, k := range e.allMainKeys() {
 		v := s.ts.Get([]byte(k))
-		out = append(out, line{"get", hx(k), renderVal(k, v, true)})
+		out = append(out, line{"get", hx(k), renderVal(k, v, true), ""})
 		if raw && isChildRootKey(k) {
-			out = append(out, line{"rawget", hx(k), fmt.Sprintf("%x", v)})
+			out = append(out, line{"rawget", hx(k), fmt.Sprintf("%x", v), ""})
 		}
-		out = append(out, line{"next", hx(k), renderKey(s.next(ns{}, k))})
+		out = append(out, line{"next", hx(k), renderKey(s.next(ns{}, k)), ""})
 	}
 	ent := s.ts.TrieEntries()
 	var es []string
 	for _, k := range sortedKeys(ent) {
 		es = append(es, hx(k)+"="+renderVal(k, ent[k], true))
 	}
-	out = append(out, line{"entries", "", "{" + strings.Join(es, ",") + "}"})
+	out = append(out, line{"entries", "", "{" + strings.Join(es, ",") + "}", ""})
 	for _, c := range e.kids {
 		n := ns{true, c}
 		for _, k := range e.kidKeys {
-			out = append(out, line{"cget", hx(c) + "/" + hx(k), renderVal(k, s.get(n, k), false)})
-			out = append(out, line{"cnext", hx(c) + "/" + hx(k), renderKey(s.next(n, k))})
+			out = append(out, line{"cget", hx(c) + "/" + hx(k), renderVal(k, s.get(n, k), false), ""})
+			out = append(out, line{"cnext", hx(c) + "/" + hx(k), renderKey(s.next(n, k)), ""})
 		}
 		for _, p := range e.kidPfx {
-			out = append(out, line{"ckeys", hx(c) + "/" + hx(p), renderList(s.kidKeys(c, p))})
+			out = append(out, line{"ckeys", hx(c) + "/" + hx(p), renderList(s.kidKeys(c, p)), p})
 		}
 	}
 	return out
@@ -337,8 +376,8 @@ func (e *env) expect() []line {
 		} else if v == nil {
 			v = []byte{}
 		}
-		out = append(out, line{"get", hx(k), renderVal(k, v, true)})
-		out = append(out, line{"next", hx(k), renderKey(nextIn(mks, k))})
+		out = append(out, line{"get", hx(k), renderVal(k, v, true), ""})
+		out = append(out, line{"next", hx(k), renderKey(nextIn(mks, k)), ""})
 	}
 	var es []string
 	for _, k := range mks {
@@ -348,7 +387,7 @@ func (e *env) expect() []line {
 		}
 		es = append(es, hx(k)+"="+renderVal(k, v, true))
 	}
-	out = append(out, line{"entries", "", "{" + strings.Join(es, ",") + "}"})
+	out = append(out, line{"entries", "", "{" + strings.Join(es, ",") + "}", ""})
 	for _, c := range e.kids {
 		lv := e.m.live(ns{true, c})
 		lks := sortedKeys(lv)
@@ -359,8 +398,8 @@ func (e *env) expect() []line {
 			} else if v == nil {
 				v = []byte{}
 			}
-			out = append(out, line{"cget", hx(c) + "/" + hx(k), renderVal(k, v, false)})
-			out = append(out, line{"cnext", hx(c) + "/" + hx(k), renderKey(nextIn(lks, k))})
+			out = append(out, line{"cget", hx(c) + "/" + hx(k), renderVal(k, v, false), ""})
+			out = append(out, line{"cnext", hx(c) + "/" + hx(k), renderKey(nextIn(lks, k)), ""})
 		}
 		for _, p := range e.kidPfx {
 			var l []string
@@ -369,7 +408,7 @@ func (e *env) expect() []line {
 					l = append(l, k)
 				}
 			}
-			out = append(out, line{"ckeys", hx(c) + "/" + hx(p), renderList(l)})
+			out = append(out, line{"ckeys", hx(c) + "/" + hx(p), renderList(l), p})
 		}
 	}
 	return out
@@ -393,6 +432,11 @@ func (e *env) sweep(s *sut) {
 	}
 	for i := range got {
 		if got[i] != want[i] {
+			if got[i].tag == "ckeys" && zeroNib(got[i].pfx) && e.ctx == "" {
+				// the listing may fall through to the trie's GetKeysWithPrefix (known: strips a trailing zero nibble)
+				e.ctx = knownZeroNibble
+				defer func() { e.ctx = "" }()
+			}
 			e.fail(s, "read-"+got[i].tag, e.class(got[i].tag),
 				"%s: gossamer %s, Substrate overlay semantics prescribe %s (depth %d)", got[i].tag+"|"+got[i].key, got[i].val, want[i].val, e.m.depth())
 		}
@@ -466,13 +510,13 @@ func (e *env) checkCommitted(s *sut, when string) {
 		}
 	}
 	spec := storeutil.SpecRoot(full, e.specVer())
-	if s.primary {
+	if !s.real {
 		// reference backend: Hash() is the spec root over its stored entries (child roots as
 		// written through PutIntoChild/ClearFromChild/DeleteChild by the code under test)
 		if !bytes.Equal(spec[:], got[:]) {
 			e.fail(s, "committed-root", e.class("root "+when), "root %s differs from the root %x of the committed operations applied directly (a child root entry of the main trie is stale)", got, spec)
 		}
-		e.k.Probe("root-checked")
+		e.k.Probe("root-checked-reference-backend")
 		return
 	}
 	// real backend: (a) a fresh real in-memory trie fed the net committed contents, (b) the independent spec root
@@ -499,7 +543,7 @@ func (e *env) checkCommitted(s *sut, when string) {
 		e.k.Violate("C01", "txn-spec-root", "in-memory trie root differs from spec root", "root %s (equal to the fresh in-memory trie root) differs from the independent spec root %x", got, spec)
 		e.k.Probe("inmemory-root-differs-from-spec-root")
 	}
-	e.k.Probe("root-checked-inmemory")
+	e.k.Probe("root-checked")
 }
 
 // ---- operations -----------------------------------------------------------
@@ -615,6 +659,10 @@ func (e *env) opKidKeys() {
 		}
 	}
 	e.k.Event("child-keys", "%s prefix %s (model: %s)", hx(c), hx(p), renderList(want))
+	if zeroNib(p) {
+		e.ctx = knownZeroNibble
+		defer func() { e.ctx = "" }()
+	}
 	e.each(func(s *sut) {
 		got := s.kidKeys(c, p)
 		if renderList(got) != renderList(want) {
@@ -634,7 +682,7 @@ func (e *env) isKidName(key string) bool {
 
 func (e *env) opSet(n ns) {
 	key := e.pickKey(n, "key")
-	v := e.value()
+	v := e.value(n.child)
 	if n.child {
 		if len(e.m.live(n)) == 0 && len(e.m.backend(n, false)) > 0 {
 			e.k.Probe("child-recreated-after-deletion")
@@ -728,6 +776,11 @@ func (e *env) opClear(n ns, kill bool) {
 		viaLimitAPI = true // Option::None as the host functions pass it
 	}
 	plan := e.m.planClear(n, prefix, limited, limit)
+	if plan.direct && zeroNib(prefix) {
+		// reaches the trie's ClearPrefix/ClearPrefixLimit/GetKeysWithPrefix (known: strip a trailing zero nibble)
+		e.ctx = knownZeroNibble
+		defer func() { e.ctx = "" }()
+	}
 	name := "clear-prefix"
 	if kill {
 		name = "kill-child"
@@ -747,15 +800,17 @@ func (e *env) opClear(n ns, kill bool) {
 	e.each(func(s *sut) {
 		r := &clearRes{}
 		res[s] = r
-		if s.primary {
+		if !s.real {
 			// the reference backend's iterator panics with endlessLoop when it is polled 10000 times
-			// after the end of the iteration: a loop in TrieState that cannot terminate
+			// after the end of the iteration: a loop in TrieState that cannot terminate, whatever the
+			// backend. It is a verdict although it is the canary that shows it (the real trie would spin).
 			defer func() {
 				if x := recover(); x != nil {
 					if _, ok := x.(endlessLoop); !ok {
 						panic(x)
 					}
-					e.fail(s, "hang", name+" never returns [tx]", "%s %s prefix %s limit %s does not terminate: the key iterator was polled %d times after it had reported the end of the iteration", name, n, hx(prefix), lim, maxPollsAfterEnd)
+					e.k.Violate(prop, "hang", name+" never returns [tx]", "%s %s prefix %s limit %s does not terminate: the key iterator was polled %d times after it had reported the end of the iteration", name, n, hx(prefix), lim, maxPollsAfterEnd)
+					e.k.Stop()
 				}
 			}()
 		}
@@ -807,21 +862,26 @@ func (e *env) opClear(n ns, kill bool) {
 		}
 	})
 	// the primary decides what the model adopts where the semantics leave a choice
-	p := e.suts[0]
+	p := e.prim
 	r := res[p]
 	if plan.direct {
 		if len(r.gone) != plan.lenLo {
-			e.fail(p, "direct-clear", e.class(name+" count"), "%s %s prefix %s limit %s with no open transaction removed %d of %d matching keys, want %d", name, n, hx(prefix), lim, len(r.gone), len(plan.bp), plan.lenLo)
+			e.failX(p, false, "direct-clear", e.class(name+" count"), "%s %s prefix %s limit %s with no open transaction removed %d of %d matching keys, want %d", name, n, hx(prefix), lim, len(r.gone), len(plan.bp), plan.lenLo)
 		}
 		e.m.applyClear(plan, 0, r.gone)
+		// which keys a limited clear removes with no transaction open is adopted from the primary;
+		// bring the canary's backend in line
+		if e.sec.alive {
+			e.sec.ref.resync(n, e.m.backend(n, false))
+		}
 	} else {
 		for i, k := range r.gone {
 			if plan.pb[i] != k {
-				e.fail(p, "clear-limit-state", e.class(name+" order"), "%s %s prefix %s limit %s: backend keys %s were removed but the smaller key %s survived (backend keys go in lexicographic order)", name, n, hx(prefix), lim, renderList(r.gone), hx(plan.pb[i]))
+				e.failX(p, false, "clear-limit-state", e.class(name+" order"), "%s %s prefix %s limit %s: backend keys %s were removed but the smaller key %s survived (backend keys go in lexicographic order)", name, n, hx(prefix), lim, renderList(r.gone), hx(plan.pb[i]))
 			}
 		}
 		if len(r.gone) < plan.lenLo || len(r.gone) > plan.lenHi {
-			e.fail(p, "clear-limit-state", e.class(name+" count"), "%s %s prefix %s limit %s: %d of the %d backend-only keys were removed, Substrate removes between %d and %d (backend %s, overlay %s)", name, n, hx(prefix), lim, len(r.gone), len(plan.pb), plan.lenLo, plan.lenHi, renderList(plan.bp), renderList(plan.ov))
+			e.failX(p, false, "clear-limit-state", e.class(name+" count"), "%s %s prefix %s limit %s: %d of the %d backend-only keys were removed, Substrate removes between %d and %d (backend %s, overlay %s)", name, n, hx(prefix), lim, len(r.gone), len(plan.pb), plan.lenLo, plan.lenHi, renderList(plan.bp), renderList(plan.ov))
 		}
 		if plan.lenLo != plan.lenHi {
 			e.k.Probe("clear-limit-substrate-generations-differ")
@@ -845,17 +905,17 @@ func (e *env) opClear(n ns, kill bool) {
 			// Substrate say so. (Both generations say "some remaining" for a few degenerate calls after
 			// which nothing is left, e.g. limit 0 over keys that are already deleted - not asserted.)
 			if len(r.gone) < len(plan.pb) && r.all {
-				e.fail(s, "clear-result-all", e.class(name+" all-removed flag"), "%s %s prefix %s limit %s returned allDeleted=true although backend keys under the prefix survive the limit (backend keys under prefix %s, removed %s)", name, n, hx(prefix), lim, renderList(plan.bp), renderList(r.gone))
+				e.fail(s, "clear-result-all", "all-removed-flag-true-although-keys-remain/"+name, "%s %s prefix %s limit %s returned allDeleted=true although backend keys under the prefix survive the limit (backend keys under prefix %s, removed %s)", name, n, hx(prefix), lim, renderList(plan.bp), renderList(r.gone))
 			}
 			if len(r.gone) == len(plan.pb) && plan.allKnown && plan.all && !r.all {
-				e.fail(s, "clear-result-all", e.class(name+" all-removed flag"), "%s %s prefix %s limit %s returned allDeleted=false although no key under the prefix remains and the limit was not reached; Substrate reports all removed (backend keys under prefix %s, overlay keys under prefix %s)", name, n, hx(prefix), lim, renderList(plan.bp), renderList(plan.ov))
+				e.fail(s, "clear-result-all", "all-removed-flag-false-although-nothing-remains/"+name, "%s %s prefix %s limit %s returned allDeleted=false although no key under the prefix remains and no backend key was left unvisited; Substrate reports all removed (backend keys under prefix %s, overlay keys under prefix %s)", name, n, hx(prefix), lim, renderList(plan.bp), renderList(plan.ov))
 			}
 			// The number: Substrate reports backend keys only (removed, later: visited); gossamer's
 			// unit tests pin "overlay keys deleted + backend keys". Neither reading is excluded:
 			// at least the backend-only keys actually removed, at most backend keys visited plus
 			// the overlay keys that were live.
 			if lo, hi := uint32(len(r.gone)), plan.cntHi+uint32(plan.ovLive); r.deleted < lo || r.deleted > hi {
-				e.fail(s, "clear-result-count", e.class(name+" count"), "%s %s prefix %s limit %s returned %d removed keys; %d backend-only keys were removed, at most %d backend keys could be visited and %d overlay keys were live (backend keys under prefix %s, overlay keys under prefix %s)", name, n, hx(prefix), lim, r.deleted, lo, plan.cntHi, plan.ovLive, renderList(plan.bp), renderList(plan.ov))
+				e.fail(s, "clear-result-count", "removed-count-out-of-range/"+name, "%s %s prefix %s limit %s returned %d removed keys; %d backend-only keys were removed, at most %d backend keys could be visited and %d overlay keys were live (backend keys under prefix %s, overlay keys under prefix %s)", name, n, hx(prefix), lim, r.deleted, lo, plan.cntHi, plan.ovLive, renderList(plan.bp), renderList(plan.ov))
 			}
 		}
 		e.sweep(s)
@@ -970,6 +1030,21 @@ func pickSubset(k *kernel.K, pool []string, n int, label string) []string {
 	return out
 }
 
+func zeroNib(p string) bool { return len(p) > 0 && p[len(p)-1]&0x0f == 0 }
+
+func (e *env) usable(ps []string) []string {
+	if e.zeroNibble {
+		return ps
+	}
+	var out []string
+	for _, p := range ps {
+		if !zeroNib(p) {
+			out = append(out, p)
+		}
+	}
+	return out
+}
+
 func prefixesOf(keys []string, wide bool) []string {
 	set := map[string]bool{}
 	for _, k := range keys {
@@ -999,20 +1074,22 @@ func run(k *kernel.K) {
 	for _, c := range e.kids {
 		e.roKeys = append(e.roKeys, childRootPfx+c)
 	}
-	e.mainPfx = prefixesOf(e.mainKeys, false)
+	// prefixes whose last byte has a zero low nibble (0x10, 0x1000) only in 1 run of 6: the in-memory
+	// trie strips that nibble in ClearPrefix/ClearPrefixLimit/GetKeysWithPrefix (known finding of C02)
+	e.zeroNibble = k.Bool(1, 6, "knob-zero-low-nibble-prefixes")
+	e.mainPfx = e.usable(prefixesOf(e.mainKeys, false))
 	if len(e.mainPfx) == 0 {
 		e.mainPfx = []string{"a"}
 	}
-	e.kidPfx = prefixesOf(e.kidKeys, true)
+	e.kidPfx = e.usable(prefixesOf(e.kidKeys, true))
 	if len(e.kidPfx) > 5 {
 		e.kidPfx = append([]string{""}, pickSubset(k, e.kidPfx[1:], 4, "kid-prefix")...)
 	}
 
 	// initial committed state, built directly in both backends
-	e.suts = []*sut{
-		{name: "reference-backend", primary: true, alive: true},
-		{name: "inmemory-backend", alive: true},
-	}
+	e.sec = &sut{name: "reference-backend", alive: true}
+	e.prim = &sut{name: "inmemory-backend", primary: true, real: true, alive: true}
+	e.suts = []*sut{e.sec, e.prim} // the canary goes first
 	ref := newMapTrie(e.ver)
 	real := inmemory.NewEmptyTrie()
 	real.SetVersion(e.ver)
@@ -1023,7 +1100,7 @@ func run(k *kernel.K) {
 			n = ns{true, e.kids[k.Choose(len(e.kids), "kid")]}
 		}
 		key := e.pickKey(n, "key")
-		v := e.value()
+		v := e.value(n.child)
 		put := func(tr trie.Trie) {
 			var err error
 			if n.child {
@@ -1036,13 +1113,11 @@ func run(k *kernel.K) {
 			}
 		}
 		put(ref)
-		if e.suts[1].alive { // guarded: the real trie may panic (then the secondary is dropped)
-			e.guard(e.suts[1], func() { put(real) })
-		}
+		put(real)
 		e.m.put(n, key, v)
 	}
-	e.suts[0].ts = storage.NewTrieState(ref)
-	e.suts[1].ts = storage.NewTrieState(real)
+	e.sec.ts, e.sec.ref = storage.NewTrieState(ref), ref
+	e.prim.ts = storage.NewTrieState(real)
 	k.Event("init", "version %d, %d main keys, %d child tries, alphabet main %s kids %s kid-keys %s", e.ver, len(e.m.bMain), len(e.m.bKids), renderList(e.mainKeys), renderList(e.kids), renderList(e.kidKeys))
 	e.sweepAll()
 
@@ -1132,7 +1207,7 @@ func run(k *kernel.K) {
 		e.checkCommitted(s, "at end of run")
 		e.sweep(s)
 	})
-	if e.suts[1].alive {
-		k.Probe("secondary(inmemory-backend)-agreed-whole-run")
+	if e.sec.alive {
+		k.Probe("canary(reference-backend)-agreed-whole-run")
 	}
 }
